@@ -101,8 +101,44 @@ type victimTracer struct {
 	problems               []string // oracle (3) violations noticed while the run goes on
 	crashOpen              []int64
 	planLeft               int  // crash points not reached when the scheduled part of the run ended
+	crashedMidRange        bool // some crash fell between the block transactions of one multi-block sync range
+	crashedMidRangeDKG     bool // ... and a block already committed in that range changes the DKG state
 	crashedAfterCommitOnly bool // some crash happened while the last DKG-relevant block applied carried only commitments
 	crashedPending         bool // some crash happened while a DKG with outstanding commitments/evals was stored
+}
+
+// dkgRelevant: applying block h changes the victim's DKG state (eon start,
+// phase change, commitment, eval addressed to the victim, accusation, apology).
+func (vt *victimTracer) dkgRelevant(h int64) bool {
+	r := vt.r
+	if r.h0 == 0 || h < r.h0 || h > r.h0+3*r.sc.L {
+		return false
+	}
+	L := r.sc.L
+	if h == r.h0 || h == r.h0+L || h == r.h0+2*L || h == r.h0+3*L {
+		return true
+	}
+	b := r.chain.Block(h)
+	if b == nil {
+		return false
+	}
+	me := vt.node().Addr
+	for _, tx := range b.Txs {
+		if tx.Code != 0 || tx.Msg == nil {
+			continue
+		}
+		switch {
+		case tx.Msg.GetPolyCommitment() != nil, tx.Msg.GetAccusation() != nil, tx.Msg.GetApology() != nil:
+			return true
+		case tx.Msg.GetPolyEval() != nil && tx.Signer != me:
+			for _, rc := range tx.Msg.GetPolyEval().Receivers {
+				if common.BytesToAddress(rc) == me {
+					return true
+				}
+			}
+		}
+	}
+	return false
 }
 
 // afterCommitmentOnlyBlock: the newest block the victim has applied that
@@ -339,6 +375,7 @@ func (vt *victimTracer) step(r *Run, n *Node, budget int) error {
 		}
 		vt.units = append(vt.units, info)
 	}
+	startedAt := n.syncedBefore // highest block applied before this iteration
 	n.syncedBefore = n.syncedTo()
 	if crashed {
 		if pendingBefore || vt.pendingDKG() {
@@ -346,6 +383,16 @@ func (vt *victimTracer) step(r *Run, n *Node, budget int) error {
 		}
 		if vt.afterCommitmentOnlyBlock() {
 			vt.crashedAfterCommitOnly = true
+		}
+		// between the per-block transactions of a multi-block range: at least
+		// one block of this iteration's range is committed, at least one is not
+		if now, rangeEnd := n.syncedTo(), open-3; len(marks) > 0 && now > startedAt && now < rangeEnd {
+			vt.crashedMidRange = true
+			for h := startedAt + 1; h <= now; h++ {
+				if vt.dkgRelevant(h) {
+					vt.crashedMidRangeDKG = true
+				}
+			}
 		}
 		vt.crashOpen = append(vt.crashOpen, open)
 		vt.plan = vt.plan[1:]
@@ -434,9 +481,11 @@ type c08Result struct {
 	unsupported            []string
 	prefixOK               bool
 	execErr                error
-	h0                     int64
+	h0, L                  int64
 	crashedPending         bool
 	crashedAfterCommitOnly bool
+	crashedMidRange        bool
+	crashedMidRangeDKG     bool
 	persistFailed          bool
 	divergence             string
 }
@@ -446,7 +495,9 @@ type c08Result struct {
 // eval to the victim and accuses it falsely (and apologizes correctly), so
 // that the victim also has to get an accusation and an apology through the
 // crash; every honest keyper still succeeds in the crash-free twin. Variant 3
-// is all honest with one broadcast per keyper and block.
+// is all honest with one broadcast per keyper and block. Variants 4 and 5 make
+// the victim lag (it iterates every 2nd / 3rd block), so that its sync ranges
+// hold several blocks with one database transaction each.
 func c08Scenario(variant, victim int) Scenario {
 	orders := [][]int{{0, 1, 2}, {2, 0, 1}, {1, 2, 0}}
 	sc := Scenario{N: 3, T: 2, L: 8, Order: orders[variant%len(orders)], Byz: map[int]ByzStrategy{}, Fair: true, ForkEnabled: variant%2 == 0, Tail: 8}
@@ -461,6 +512,23 @@ func c08Scenario(variant, victim int) Scenario {
 		// commitment and evals of a keyper land in three consecutive blocks,
 		// so there are blocks that carry nothing but commitments
 		sc.PlainBudget = 1
+	}
+	if variant == 4 {
+		// the victim is a slow node: it iterates only every second block and
+		// catches up over ranges of two blocks
+		// (offset 0: the eon-start block, the victim's own commitment and the
+		// three phase changes are the first block of a two-block range)
+		sc.Lag = map[int]int{victim: 2}
+	}
+	if variant == 5 {
+		// slow victim (every third block, ranges of three blocks) and the
+		// Byzantine dealer of variant 2; longer phases leave room for the
+		// iteration a crash costs
+		sc.L = 10
+		sc.Lag = map[int]int{victim: 3}
+		b := (victim + 1) % 3
+		other := (victim + 2) % 3
+		sc.Byz[b] = ByzStrategy{Commit: cmCorrect, Eval: map[int]int{victim: evWrong, other: evCorrect}, Accuse: []int{victim}, Apology: apCorrect, DealOff: 2, AccOff: 2, ApoOff: 4}
 	}
 	return sc
 }
@@ -504,9 +572,10 @@ func runC08(sc Scenario, victim int, plan []crashPoint, ref *c08Result, fail fai
 		res.units, res.bcasts = vt.units[:nUnits], vt.bcasts[:nBcasts]
 	}
 	res.unsupported = r.unsupported()
-	res.h0 = r.h0
+	res.h0, res.L = r.h0, sc.L
 	res.crashedPending = vt.crashedPending
 	res.crashedAfterCommitOnly = vt.crashedAfterCommitOnly
+	res.crashedMidRange, res.crashedMidRangeDKG = vt.crashedMidRange, vt.crashedMidRangeDKG
 	if res.execErr != nil || len(res.unsupported) > 0 {
 		if res.execErr != nil && len(res.unsupported) == 0 {
 			fail("no-progress", "%v\ncrashes: %v\n%s", res.execErr, vt.crashes, r.history())
@@ -733,7 +802,7 @@ func canonRows(rows []map[string]any) string {
 
 // ---------------------------------------------------------------------------
 
-const c08Rule = "case = (victim keyper, crash point) in a DKG run in which the crash-free twin succeeds (n=3,t=2,L=8, every keyper one sync+onchain+send iteration per block; variants: all honest with two keyper-set orders and check-in fork on/off; one Byzantine keyper that deals a wrong eval to the victim and accuses it falsely, so that the victim also has an accusation and an apology to get through): every client->database round trip k of the victim observed in a crash-free reference run x {connection lost before the request, request executed (COMMIT applied) but reply lost}, and every accepted BroadcastTxCommit x {process dies before the outbox row is deleted}; a fourth variant sends one message per keyper and block (commitment-only blocks exist); quick runs the one-message variant and the Byzantine variant with victim k1 and every 5th database point, thorough all four variants, all three victims, every point and sampled pairs of crashes. In addition, in every run (crash-free twin included), after every main-loop iteration of every honest keyper that ended without error the PureDKG objects in the keyper's memory (read through reflect) must equal the puredkg rows decoded from its database: what a keyper knows after a committed block must be persisted. Non-trivial = the crash fell inside an open database transaction (block-tx, block-commit, onchain-tx, onchain-commit), on the outbox delete, or between an accepted broadcast and the delete (as opposed to an idle poll or a BEGIN). Distinct = (variant, victim, crash points)."
+const c08Rule = "case = (victim keyper, crash point) in a DKG run in which the crash-free twin succeeds (n=3,t=2,L=8, every keyper one sync+onchain+send iteration per block; variants: all honest with two keyper-set orders and check-in fork on/off; one Byzantine keyper that deals a wrong eval to the victim and accuses it falsely, so that the victim also has an accusation and an apology to get through): every client->database round trip k of the victim observed in a crash-free reference run x {connection lost before the request, request executed (COMMIT applied) but reply lost}, and every accepted BroadcastTxCommit x {process dies before the outbox row is deleted}; a fourth variant sends one message per keyper and block (commitment-only blocks exist); in a fifth and sixth the victim is a slow node that runs its main loop only every 2nd / 3rd block (the sixth together with the Byzantine dealer, L=10), so that it catches up over sync ranges of several blocks with one transaction each and crash points lie between them; quick runs the one-message variant, the Byzantine variant and the every-2nd-block variant with victim k1 and every 6th database point, thorough all six variants, all three victims, every point and sampled pairs of crashes. In addition, in every run (crash-free twin included), after every main-loop iteration of every honest keyper that ended without error, and after every per-block transaction inside a sync range, the PureDKG objects in the keyper's memory (read through reflect) must equal the puredkg rows decoded from its database: what a keyper knows after a committed block must be persisted. Non-trivial = the crash fell inside an open database transaction (block-tx, block-commit, onchain-tx, onchain-commit), on the outbox delete, or between an accepted broadcast and the delete (as opposed to an idle poll or a BEGIN). Distinct = (variant, victim, crash points)."
 
 func c08Assumptions(rec *Recorder) {
 	rec.Assume(
@@ -772,10 +841,10 @@ func TestC08_CrashRecovery(t *testing.T) {
 	rec.AddRule(c08Rule)
 	c08Assumptions(rec)
 
-	variants := []int{3, 2}
+	variants := []int{3, 2, 4}
 	victims := []int{1}
 	if thorough() {
-		variants = []int{0, 1, 2, 3}
+		variants = []int{0, 1, 2, 3, 4, 5}
 		victims = []int{0, 1, 2}
 	}
 	caseNo := 0
@@ -847,7 +916,7 @@ func TestC08_CrashRecovery(t *testing.T) {
 				}
 			} else {
 				// quick: a slice of the single points chosen by the seed (stratified over the run), all rpc points
-				const stride = 5
+				const stride = 6
 				for i, p := range points {
 					if p.Kind == "rpc" || i%stride == seed%stride {
 						plans = append(plans, []crashPoint{p})
@@ -942,6 +1011,12 @@ func TestC08_CrashRecovery(t *testing.T) {
 				if res.crashedAfterCommitOnly {
 					labels = append(labels, "crash-after-commitment-only-block")
 				}
+				if res.crashedMidRange {
+					labels = append(labels, "crash-between-blocks-of-multi-block-range")
+				}
+				if res.crashedMidRangeDKG {
+					labels = append(labels, "crash-after-dkg-relevant-non-final-block-of-range")
+				}
 				if first.Kind == "db" {
 					if first.After {
 						labels = append(labels, "fault:reply-lost-after-execution")
@@ -981,7 +1056,7 @@ func TestC08_CrashRecovery(t *testing.T) {
 }
 
 func phaseLabelFromRef(ref *c08Result, open int64) string {
-	return phaseLabel(open, ref.h0, 8)
+	return phaseLabel(open, ref.h0, ref.L)
 }
 
 func runC08Plan(sc Scenario, victim int, plan []crashPoint, ref *c08Result, fail failFn) *c08Result {
